@@ -64,17 +64,27 @@ def _ops_on_path(p, containers=CONTAINERS):
             for x in walk_scope(e):
                 if isinstance(x, ast.Call) and isinstance(x.func, ast.Attribute) and path_of(x.func.value) in containers and x.func.attr in MUT:
                     ops.append(f"{path_of(x.func.value).split('._')[-1]}.{x.func.attr}")
+                if isinstance(x, ast.Call) and path_of(x.func) == "self._discard_pending":
+                    ops.append("pending_queue.discard")
         if n.kind == "stmt" and isinstance(n.ast, ast.Assign):
             for t in n.ast.targets:
                 if isinstance(t, ast.Subscript) and path_of(t.value) in containers:
                     ops.append(f"{path_of(t.value).split('._')[-1]}.set")
+        if n.kind == "stmt" and isinstance(n.ast, ast.Delete):
+            for t in n.ast.targets:
+                if isinstance(t, ast.Subscript) and path_of(t.value) in containers:
+                    ops.append(f"{path_of(t.value).split('._')[-1]}.del")
     return ops
 
 
 def rule_queue(ctx: Ctx) -> None:
     prog = ctx.prog
     q = prog.cls(MQ, "MessageQueue")
-    allowed = {"__init__", "publish", "_deliver_message", "acknowledge", "reject", "schedule_redelivery"}
+    allowed = {"__init__", "publish", "_deliver_message", "acknowledge", "reject", "schedule_redelivery", "_discard_pending"}
+    dp = q.methods.get("_discard_pending")
+    need(dp is not None, "C19-2: MessageQueue._discard_pending not found")
+    dmut = sorted({(c, a) for c, a, _ in _mutations(dp)})
+    ctx.ob("C19-2", "G2", dp, "helper only removes the id from pending", dmut == [("self._pending_queue", "remove")] and not dp.is_generator, "_discard_pending only removes the given id from the pending queue")
     for m in q.methods.values():
         muts = _mutations(m)
         if muts and m.name not in allowed:
@@ -106,9 +116,52 @@ def rule_queue(ctx: Ctx) -> None:
             inp = p.decided(lambda t: t == "message_idinself._pending_queue")
             if inp is None or (inp is True and rmn not in p.nodes):
                 ok = False
-    dc = [s for s in walk_stmts(dl.node.body) if increment_of(s, "msg.delivery_count") is not None]
-    ok = ok and len(dc) == 1 and increment_of(dc[0], "msg.delivery_count") == 1 and not always_before(ctx, dl, lambda x: x.ast is dc[0], lambda x: x is inn)
+    dc = [s for s in walk_stmts(dl.node.body) if increment_of(s, "msg.delivery_count") == 1]
+    ok = ok and len(dc) == 1 and not always_before(ctx, dl, lambda x: x.ast is dc[0], lambda x: x is inn)
     ctx.ob("C19-2", "G2", dl, ins[0], ok, "_deliver_message moves a stored message from pending to in flight in one atomic step, only with a consumer, counting the attempt once")
+    # after the delivery latency: every path either emits the delivery (message still stored, consumer subscribed now) or ends with the message
+    # accounted for (gone already, or the attempt undone: in flight → pending front, count restored)
+    lat = [n for n in df.cfg.nodes if n.kind == "stmt" and node_suspension(prog, dl, n)]
+    need(len(lat) == 1, "C19-2: _deliver_message should suspend once (the delivery latency)")
+    evn = [n for n in df.cfg.nodes if any(isinstance(c, ast.Call) and path_of(c.func) == "Event" for e in own_exprs(n) for c in walk_scope(e))]
+    bad = []
+    kinds = {"deliver": 0, "gone": 0, "undo": 0, "lost": 0}
+    for p in enumerate_paths(df, lat[0]):
+        if p.end != "exit":
+            continue
+        ops = _ops_on_path(type("P", (), {"nodes": p.nodes[1:]})())
+        stored = p.decided(lambda t: t == "self._messages.get(message_id)isnotmsg")
+        left = p.decided(lambda t: t == "consumernotinself._consumers")
+        none = p.decided(lambda t: t == "consumerisNone")
+        emits = any(n in evn for n in p.nodes)
+        if emits:
+            kinds["deliver"] += 1
+            repick = any(n.kind == "stmt" and isinstance(n.ast, ast.Assign) and path_of(n.ast.targets[0]) == "consumer" and unparse(n.ast.value) == "self._get_next_consumer()" for n in p.nodes[1:])
+            if stored is not False:
+                bad.append(f"[{p.describe()[:100]}] delivers without re-checking that the message is still stored (it may have been acknowledged during the latency)")
+            if not (left is False or (left is True and repick and none is False)):
+                bad.append(f"[{p.describe()[:100]}] delivers to a consumer not known to be subscribed at the delivery instant")
+            if ops:
+                bad.append(f"delivery path touches {ops}")
+        elif stored is True:
+            kinds["gone"] += 1
+            if ops:
+                bad.append(f"message gone but {ops}")
+        elif ops:
+            kinds["undo"] += 1
+            dec = [n for n in p.nodes if n.kind == "stmt" and increment_of(n.ast, "msg.delivery_count") == -1]
+            if sorted(ops) != ["in_flight.del", "pending_queue.appendleft"] or len(dec) != 1 or none is not True:
+                bad.append(f"undo path [{p.describe()[:100]}] ops {ops}, count restored {len(dec)}x")
+        else:
+            mine = p.decided(lambda t: t == "self._in_flight.get(message_id)ismsg")
+            if mine is False:
+                kinds["gone"] += 1  # taken over by someone else meanwhile: nothing of this attempt is left to undo
+            else:
+                kinds["lost"] += 1
+                bad.append(f"[{p.describe()[:120]}] ends without delivering and without returning the message to pending")
+    need(kinds["deliver"] >= 2 and kinds["gone"] >= 1 and kinds["undo"] >= 1, f"C19-2: post-latency path kinds {kinds}")
+    ctx.ob("C19-2", "G5", dl, lat[0].ast, not bad, f"after the delivery latency the message is delivered only if still stored and to a consumer subscribed at that instant; otherwise the attempt is dropped or undone, never lost ({kinds})"
+           + ("" if not bad else " — " + bad[0]))
     g = [s for s in dl.node.body if isinstance(s, ast.If) and {f.sig for f in atoms(s.test, True)} == {("notin", "message_id", "self._messages")} and any(isinstance(b, ast.Return) for b in s.body)]
     first_real = [s for s in dl.node.body if not (isinstance(s, ast.Expr) and isinstance(s.value, ast.Constant))][0]
     ctx.ob("C19-2", "G1", dl, g[0] if g else None, len(g) == 1 and g[0] is first_real, "nothing acknowledged or dead-lettered is delivered again: _deliver_message returns at once for an id no longer stored")
@@ -122,10 +175,11 @@ def rule_queue(ctx: Ctx) -> None:
     # acknowledge
     ack = q.methods["acknowledge"]
     ops = sorted({(c, a) for c, a, _ in _mutations(ack)})
-    ok = ops == [("self._in_flight", "pop"), ("self._messages", "pop")] and not ack.is_generator
+    dpc = [c for c in calls_in(ack.node) if path_of(c.func) == "self._discard_pending" and [path_of(x) for x in c.args] == ["message_id"]]
+    ok = ops == [("self._in_flight", "pop"), ("self._messages", "pop")] and not ack.is_generator and len(dpc) == 1
     inc = [s for s in walk_stmts(ack.node.body) if increment_of(s, "self._messages_acknowledged") == 1]
     rd = [c for c in calls_in(ack.node) if path_of(c.func) == "self._redelivery_scheduled.discard"]
-    ctx.ob("C19-2", "G2", ack, "ack: in flight → gone, counted", ok and len(inc) == 1 and len(rd) == 1, "acknowledge removes the message from in flight and from the store, cancels its redelivery marker and counts it once")
+    ctx.ob("C19-2", "G2", ack, "ack: in flight → gone, counted", ok and len(inc) == 1 and len(rd) == 1, "acknowledge removes the message from in flight, from pending (a timeout may have put it back there) and from the store, cancels its redelivery marker and counts it once")
     # reject: path table
     rj = q.methods["reject"]
     rf = ctx.flow(rj)
@@ -147,11 +201,11 @@ def rule_queue(ctx: Ctx) -> None:
             kinds["requeue"] += 1
             lim = p.decided(lambda t: t == "msg.delivery_count<self._max_redeliveries")
             rq = p.decided(lambda t: t == "requeue")
-            if sorted(ops) != ["in_flight.pop", "pending_queue.append"] or lim is not True or rq is not True or dlq_calls:
+            if sorted(ops) != ["in_flight.pop", "pending_queue.append", "pending_queue.discard"] or ops.index("pending_queue.discard") > ops.index("pending_queue.append") or lim is not True or rq is not True or dlq_calls:
                 bad.append(f"requeue path [{p.describe()[:80]}] ops {ops}")
         else:
             kinds["gone"] += 1
-            if sorted(ops) != ["in_flight.pop", "messages.pop"] or (has_dlq is True) != bool(dlq_calls):
+            if sorted(ops) != ["in_flight.pop", "messages.pop", "pending_queue.discard"] or (has_dlq is True) != bool(dlq_calls):
                 bad.append(f"dead-letter path [{p.describe()[:80]}] ops {ops} dlq={bool(dlq_calls)}")
             if has_dlq is True and not any(increment_of(n.ast, "self._messages_dead_lettered") == 1 for n in p.nodes if n.kind == "stmt"):
                 bad.append("dead-lettered message not counted")
@@ -202,6 +256,9 @@ def rule_queue(ctx: Ctx) -> None:
     ok = len(ev) == 1 and path_of(kw.get("target")) == "self" and unparse(kw.get("event_type")) == "'message_redelivery'" and "'message_id': message_id" in unparse(kw.get("context")) and len(hd) == 1 and [path_of(x) for x in hd[0].args] == ["message_id"] \
         and "'message_redelivery'" in unparse(he.node) and len(stmts_matching(he, "message_id = event.context.get('message_id')")) == 1
     ctx.ob("C19-2", "G8", sr, ev[0] if ev else None, ok, "a requested redelivery is an event to the queue itself naming the message; its handler delivers exactly that message")
+    hef = ctx.flow(he)
+    okg = len(hd) == 1 and hef.holds_at(node_of(hef.cfg, hd[0]), Fact("in", "message_id", "self._pending_queue"))
+    ctx.ob("C19-2", "G1", he, hd[0] if hd else None, okg, "the redelivery timer delivers only a message that is still pending (a poll may have delivered it already: one timeout, one redelivery)")
     # order: poll takes the left end
     pl = q.methods["poll"]
     take = stmts_matching(pl, "message_id = self._pending_queue[0]")
@@ -420,23 +477,30 @@ def run(ctx: Ctx) -> None:
     ctx.guarded(rule_topic)
     ctx.guarded(rule_log)
     ctx.guarded(rule_group)
-    for r, k in (("C19-1", 1), ("C19-2", 9), ("C19-3", 1), ("C19-4", 4), ("C19-5", 5), ("C19-6", 1), ("C19-7", 7), ("C19-8", 6)):
+    for r, k in (("C19-1", 1), ("C19-2", 12), ("C19-3", 1), ("C19-4", 4), ("C19-5", 5), ("C19-6", 1), ("C19-7", 7), ("C19-8", 6)):
         ctx.floor(r, k)
 
 
 MUTANTS = [
+    ("deliver-after-ack", MQ, "        if self._messages.get(message_id) is not msg:\n            return None\n", "", "C19-2"),
+    ("deliver-to-departed-consumer", MQ, "        if consumer not in self._consumers:\n            consumer = self._get_next_consumer()", "        if consumer is None:\n            consumer = self._get_next_consumer()", "C19-2"),
+    ("redelivery-timer-unguarded", MQ, "                if message_id not in self._pending_queue:\n                    return []\n", "", "C19-2"),
+    ("ack-leaves-pending-id", MQ, "        self._in_flight.pop(message_id, None)\n        self._discard_pending(message_id)\n        self._messages.pop(message_id, None)", "        self._in_flight.pop(message_id, None)\n        self._messages.pop(message_id, None)", "C19-2"),
+    ("reject-leaves-pending-id", MQ, "        self._in_flight.pop(message_id, None)\n        self._discard_pending(message_id)\n\n        if requeue", "        self._in_flight.pop(message_id, None)\n\n        if requeue", "C19-2"),
+    ("undo-keeps-in-flight", MQ, "                    del self._in_flight[message_id]\n", "                    pass\n", "C19-2"),
+    ("undo-drops-message", MQ, "                    self._pending_queue.appendleft(message_id)\n                return None", "                return None", "C19-2"),
     ("publish-queues-after-latency", MQ, ["        self._pending_queue.append(message_id)\n        self._messages_published += 1\n\n        # Small publish latency\n        yield 0.0001\n"], ["        self._messages_published += 1\n\n        # Small publish latency\n        yield 0.0001\n        self._pending_queue.append(message_id)\n"], "C19-2"),
     ("deliver-in-flight-after-latency", MQ, ["        self._in_flight[message_id] = msg\n\n        # Track delivery latency", "        yield self._delivery_latency\n"], ["        # Track delivery latency", "        yield self._delivery_latency\n        self._in_flight[message_id] = msg\n"], "C19-2"),
     ("deliver-counts-twice", MQ, "        msg.delivery_count += 1\n        msg.last_delivered_at = now", "        msg.delivery_count += 2\n        msg.last_delivered_at = now", "C19-2"),
     ("deliver-no-stored-guard", MQ, "        if message_id not in self._messages:\n            return None\n\n        consumer = self._get_next_consumer()", "        consumer = self._get_next_consumer()", "C19-2"),
     ("deliver-stale-stamp", MQ, "        delivery_event = Event(\n            time=self._clock.now if self._clock else Instant.Epoch,\n            event_type=\"message_delivery\",", "        delivery_event = Event(\n            time=now,\n            event_type=\"message_delivery\",", "C19-1"),
-    ("ack-keeps-in-flight", MQ, "        self._in_flight.pop(message_id, None)\n        self._messages.pop(message_id, None)\n        self._redelivery_scheduled.discard(message_id)\n\n        self._messages_acknowledged += 1", "        self._messages.pop(message_id, None)\n        self._redelivery_scheduled.discard(message_id)\n\n        self._messages_acknowledged += 1", "C19-2"),
+    ("ack-keeps-in-flight", MQ, "        self._in_flight.pop(message_id, None)\n        self._discard_pending(message_id)\n        self._messages.pop(message_id, None)", "        self._discard_pending(message_id)\n        self._messages.pop(message_id, None)", "C19-2"),
     ("reject-requeue-and-remove", MQ, "            msg.state = MessageState.PENDING\n            self._pending_queue.append(message_id)\n        else:", "            msg.state = MessageState.PENDING\n            self._pending_queue.append(message_id)\n            self._messages.pop(message_id, None)\n        else:", "C19-2"),
     ("reject-dlq-keeps-stored", MQ, "                self._messages_dead_lettered += 1\n            self._messages.pop(message_id, None)", "                self._messages_dead_lettered += 1", "C19-2"),
     ("reject-limit-inclusive", MQ, "        if requeue and msg.delivery_count < self._max_redeliveries:", "        if requeue and msg.delivery_count <= self._max_redeliveries:", "C19-2"),
     ("reject-skips-dlq", MQ, "                self._dead_letter_queue.add_message(msg)\n                self._messages_dead_lettered += 1", "                self._messages_dead_lettered += 1", "C19-2"),
     ("timeout-ignores-limit", MQ, "        if msg.delivery_count >= self._max_redeliveries:\n            # Dead letter\n            self.reject(message_id, requeue=False)\n            return None\n", "", "C19-2"),
-    ("timeout-requeues-at-back", MQ, "        self._pending_queue.appendleft(message_id)", "        self._pending_queue.append(message_id)", "C19-2"),
+    ("timeout-requeues-at-back", MQ, "        self._in_flight.pop(message_id, None)\n        self._pending_queue.appendleft(message_id)", "        self._in_flight.pop(message_id, None)\n        self._pending_queue.append(message_id)", "C19-2"),
     ("timeout-keeps-in-flight", MQ, "        msg.state = MessageState.PENDING\n        self._in_flight.pop(message_id, None)\n        self._pending_queue.appendleft(message_id)", "        msg.state = MessageState.PENDING\n        self._pending_queue.appendleft(message_id)", "C19-2"),
     ("poll-takes-newest", MQ, "        message_id = self._pending_queue[0]", "        message_id = self._pending_queue[-1]", "C19-3"),
     ("topic-snapshot-after-latency", TOPIC, ["        active_subscribers = [sub for sub in self._subscriptions.values() if sub.active]\n\n        for subscription in active_subscribers:\n            # Delivery latency\n            yield self._delivery_latency\n"], ["        yield self._delivery_latency\n        active_subscribers = [sub for sub in self._subscriptions.values() if sub.active]\n\n        for subscription in active_subscribers:\n"], "C19-4"),
